@@ -154,6 +154,8 @@ def spaces(tier):
             yield ("default-bins", n)
         for n in (25, 27, 52, 60):
             yield ("tcr-long", n)
+        for N in (999, 1000, 1001, 2000, 1024):
+            yield ("rows-boundary", N)
 
     def gen_free():
         for seqs in E.lists(U2, 2, minlen=2):
@@ -165,7 +167,7 @@ def spaces(tier):
         Space("tcr-tables", gen_tables, "tables of 2..3(4) rows over 3x3 two-letter CDR3s, column sets {CDR3A},{CDR3B},{CDR3A,CDR3B}(+extra column, shifted index), legacy tuple form; default metric", shards=32),
         Space("maxseqs-rng-seam", gen_maxseqs, "lists of 2..4 strings over U(AB,1) and tables of 2..4 rows x maxseqs in {1,2,N-1,N,N+1} x seqs2; every subset the RNG can return"),
         Space("free-running-rapidfuzz-threads", gen_free, "Lists(U(AB,2),2) x 2 second collections x 4 metrics x 4 normalisations with rapidfuzz's own thread pool (workers=-1) untouched"),
-        Space("background-table", gen_bg, "load_pcDelta_background (single deterministic case); default bins (None) on string families with distances of exactly 22..26", per_case=True),
+        Space("background-table", gen_bg, "load_pcDelta_background (single deterministic case); default bins (None) on string families with distances of exactly 22..26; first collections of 999..1001, 1024, 2000 rows as raw counts", per_case=True),
     ]
 
 
@@ -295,6 +297,46 @@ def check_case(case, acc):
                 acc.fail("pcDelta/tcr-table/%s/long-cdr3" % name, case, e, r, note="distances %s" % sorted(vals))
                 return
             acc.ok((name, n, tuple(vals)), nontrivial=True)
+    elif kind == "rows-boundary":
+        # first collections of exactly / around 1000 and 2000 elements (round block sizes) against a small second one, as raw
+        # counts: the histogram is known from the multiplicities of the 7 distinct strings
+        N = case[1]
+        acc.cls("first-collection-of-about-1000-rows")
+        U = ["CASSF", "CASSLF", "CAF", "CASSLGF", "", "CASSF", "WWWWWWW"]
+        seqs = [U[(i * 3 + i // 7) % 7] for i in range(N)]
+        seqs2 = ["CASSF", "CAF", "CASSLGQQF"]
+        mult = {u: seqs.count(u) for u in set(seqs)}
+        edges = list(range(0, 12))
+        cross = [0] * (len(edges) - 1)
+        for u, m in mult.items():
+            for v in seqs2:
+                for b, c in enumerate(ref_hist([ref_lev(u, v)], edges)):
+                    cross[b] += c * m
+        import pandas as pd
+        for form in ("list", "table"):
+            a = list(seqs) if form == "list" else pd.DataFrame({"CDR3B": seqs})
+            b = list(seqs2) if form == "list" else pd.DataFrame({"CDR3B": seqs2})
+            for normalize, pcnt in ((False, 0), (True, 0.5), (True, 0)):
+                r = acc.call(pyrepseq.pcDelta, a, b, bins=edges, normalize=normalize, pseudocount=pcnt)
+                e = cross if not normalize else [(c + pcnt) / (sum(cross) + 2 * pcnt) for c in cross]
+                if not same(r, e, normalize):
+                    acc.fail("pcDelta/two-collections/rows-boundary/%s" % ("raw" if not normalize else "normalised"), case, e, r, note="%s, pseudocount=%r" % (form, pcnt))
+                    return
+            # and the one-collection form of the same list
+            if form == "list":
+                within = [0] * (len(edges) - 1)
+                us = sorted(mult)
+                for i, u in enumerate(us):
+                    for b, c in enumerate(ref_hist([0], edges)):
+                        within[b] += c * mult[u] * (mult[u] - 1) // 2
+                    for v in us[i + 1:]:
+                        for b, c in enumerate(ref_hist([ref_lev(u, v)], edges)):
+                            within[b] += c * mult[u] * mult[v]
+                r = acc.call(pyrepseq.pcDelta, a, bins=edges, normalize=False)
+                if not same(r, within, False):
+                    acc.fail("pcDelta/one-collection/rows-boundary/raw", case, within, r)
+                    return
+            acc.ok(("rows", N, form, tuple(cross)), nontrivial=True)
     elif kind == "default-bins":
         # default bins are range(0, 25): 24 bins, the last one closed ([23, 24]); distances of exactly n occur in this family
         n = case[1]
